@@ -40,11 +40,13 @@ def _build_pwl(kp, units, cyclic, missing, split, learned=False):
   if missing != "none":
     kw["impute_missing"] = True
     if missing.startswith("value"):
-      kw["missing_input_value"] = float(kp[1])  # a value inside the range (a keypoint!)
+      # a value inside the range (a keypoint!); for the '0' variants the falsy value 0.0 / kp[0]
+      kw["missing_input_value"] = float(kp[0] if missing.endswith("0") else kp[1])
     if missing.endswith("fixed"):
       kw["missing_output_value"] = -7.25
     if missing.endswith("fixed0"):
       kw["missing_output_value"] = 0.0   # falsy values must behave like any other value
+      kw["output_min"], kw["output_max"] = 1.0, 3.0  # a LEARNED missing output would start at 2.0
   layer = tfl.layers.PWLCalibration(
       input_keypoints=np.array(kp, dtype=np.float32), units=units, is_cyclic=cyclic,
       split_outputs=split, input_keypoints_type="learned_interior" if learned else "fixed",
@@ -97,7 +99,7 @@ def pwl_case(item, ctx=None):
     ismiss[::3] = 1.0
     miss_mask = ismiss > 0
   elif missing.startswith("value"):
-    miss_mask = X == np.float32(kp[1])
+    miss_mask = X == np.float32(kp[0] if missing.endswith("0") else kp[1])
   out = _call(layer, X, ismiss)
   # reference
   ref = np.zeros((X.shape[0], units))
